@@ -102,6 +102,105 @@ def context(plan, res):
     return 'mode=%s fonts=%s config=%s dirs=%s faults=%s ops=%s | %s' % (plan.get('mode'), ','.join(fonts), ','.join(opts), ','.join(dirs), ','.join(faults) or 'none', ','.join(kinds), res.get('detail', ''))
 
 
+# ---------------------------------------------------------------- synthesised rule programs (OVR_SILFPROG)
+def _prog_decode(a):
+    i = 0
+    np, nsub, nuser, ij, rtl = a[0:5]; i = 5
+    passes = []
+    for _ in range(np):
+        maxloop, nr = a[i], a[i + 1]; i += 2
+        rules = []
+        for _ in range(nr):
+            ln = a[i]; i += 1
+            match = a[i:i + ln]; i += ln
+            cl = a[i]; i += 1
+            cons = a[i:i + cl]; i += cl
+            al = a[i]; i += 1
+            act = a[i:i + al]; i += al
+            rules.append([match, cons, act])
+        passes.append([maxloop, rules])
+    return [nsub, nuser, ij, rtl, passes]
+
+
+def _prog_encode(pr):
+    nsub, nuser, ij, rtl, passes = pr
+    a = [len(passes), min(nsub, len(passes)), nuser, ij, rtl]
+    for maxloop, rules in passes:
+        a += [maxloop, len(rules)]
+        for match, cons, act in rules:
+            a += [len(match)] + list(match) + [len(cons)] + list(cons) + [len(act)] + list(act)
+    return a
+
+
+_PLEN = [0, 1, 1, 2, 2, 4] + [0] * 9 + [0] * 10 + [0, 1, 0, 1, 3, 1, 0, 0, -1, 2, 1, 1, 1, 1, 2, 2, 2, 3, 2, 2, 3, 3, 3, 0, 0, 0, 2, 2, 2, 1, 0, 5, 0, 0, 2, 3, 3, 0, 0, 0, 4, 2]
+
+
+def _insns(act):
+    out, i = [], 0
+    while i < len(act):
+        op = act[i]
+        pl = _PLEN[op] if 0 <= op < len(_PLEN) else 0
+        if pl == -1:
+            pl = 1 + (act[i + 1] if i + 1 < len(act) else 0)
+        out.append(act[i:i + 1 + pl]); i += 1 + pl
+    return out
+
+
+def shrink_programs(plan, fails, t_end):
+    """greedy: drop passes, rules, then single instructions of synthesised rule programs"""
+    import copy, time
+    cur = plan
+    for oi, op in enumerate(plan['ops']):
+        for fi, f in enumerate(op.get('faults', [])):
+            if f['kind'] != 'OVR_SILFPROG':
+                continue
+            try:
+                pr = _prog_decode(f['a'])
+            except Exception:
+                continue
+
+            def attempt(npr):
+                nonlocal cur, pr
+                if not npr[4] or any(not p[1] for p in npr[4]):
+                    return False
+                cand = copy.deepcopy(cur)
+                cand['ops'][oi]['faults'][fi]['a'] = _prog_encode(npr)
+                if fails(cand):
+                    cur, pr = cand, npr
+                    return True
+                return False
+            pi = 0
+            while pi < len(pr[4]) and time.time() < t_end:          # drop passes
+                npr = copy.deepcopy(pr); del npr[4][pi]
+                if pi < npr[0]:
+                    npr[0] -= 1
+                if not attempt(npr):
+                    pi += 1
+            for pi in range(len(pr[4])):                             # drop rules
+                ri = 0
+                while ri < len(pr[4][pi][1]) and time.time() < t_end:
+                    npr = copy.deepcopy(pr); del npr[4][pi][1][ri]
+                    if not attempt(npr):
+                        ri += 1
+            for pi in range(len(pr[4])):                             # drop constraints, then single instructions (never NEXT / returns)
+                for ri in range(len(pr[4][pi][1])):
+                    if pr[4][pi][1][ri][1] and time.time() < t_end:
+                        npr = copy.deepcopy(pr); npr[4][pi][1][ri][1] = []
+                        attempt(npr)
+                    k = 0
+                    while time.time() < t_end:
+                        ins = _insns(pr[4][pi][1][ri][2])
+                        if k >= len(ins):
+                            break
+                        if ins[k][0] in (25, 27, 48, 49, 50):
+                            k += 1; continue
+                        npr = copy.deepcopy(pr)
+                        npr[4][pi][1][ri][2] = [b for j, x in enumerate(ins) if j != k for b in x]
+                        if not attempt(npr):
+                            k += 1
+    return cur
+
+
 def _units(plan):
     """removable units: ('op', i) and ('fault', i, j)"""
     u = []
@@ -199,6 +298,8 @@ def minimise(binary, plan, cls, scratch, repo, budget_s=60):
                         cur = cand
                     else:
                         k += 2
+    # 3b. synthesised rule programs
+    cur = shrink_programs(cur, fails, t_end)
     # 4. simplify knobs: options -> 0, source -> store, ctor -> 0 (one at a time)
     for oi in range(len(cur['ops'])):
         op = cur['ops'][oi]
